@@ -70,7 +70,7 @@ def lookup (k : Nat) : List (Nat × List Nat) → Option (List Nat)
 def Store.get (st : Store) (ix : Nat) : Outcome (List Nat) :=
   match lookup ix st.items with
   | some bs => .ok bs
-  | none => .err .invalidIndex
+  | none => .err .notFound
 
 /-- indexes in use are below `next`, and `next ≥ 1` (index 0 is never handed out) -/
 def Store.Wf (st : Store) : Prop := 1 ≤ st.next ∧ ∀ p ∈ st.items, p.1 < st.next
@@ -127,8 +127,9 @@ def loadNum (tag : Nat) (i : List Nat) : Outcome Val :=
 def loadOut (m : Mode) (tag : Nat) (σ : Schema) (i : List Nat) (st : Store) : Outcome Val :=
   (st.get (idxIndex i)).bind fun bs => (de m σ bs).bind fun r => .ok (wrap tag r.1)
 
-/-- `DbValue::load_db_value`.  (Inline strings go through `String::from_utf8_lossy`, which is the
-    identity on valid UTF-8 — the only thing `store_db_value` ever puts there.) -/
+/-- `DbValue::load_db_value`.  Inline strings go through `String::from_utf8_lossy` (the identity on
+    valid UTF-8 — the only thing `store_db_value` ever puts there; modelled in full for damaged
+    indexes). -/
 def loadValue (m : Mode) (i : List Nat) (st : Store) : Outcome Val :=
   let t := getType i
   if t = BYTES_META then
@@ -138,7 +139,8 @@ def loadValue (m : Mode) (i : List Nat) (st : Store) : Outcome Val :=
   else if t = U64_META then loadNum 2 i
   else if t = F64_META then loadNum 3 i
   else if t = STRING_META then
-    if isValue i then .ok (wrap 4 (.blob (idxValue i)))
+    if isValue i then
+      .ok (wrap 4 (.blob (if validUtf8 (idxValue i) then idxValue i else utf8Lossy (idxValue i))))
     else loadOut m 4 .str i st
   else if t = VEC_I64_META then loadOut m 5 (.vec .i64) i st
   else if t = VEC_U64_META then loadOut m 6 (.vec .u64) i st
